@@ -180,6 +180,8 @@ def gen(repo):
                 f"Definition file_signature : list Z := [{sigb}].\n")
     o.add("prefetch", prefetch)
 
+    ASK = "getattr({0}, 'seekable', lambda: False)()"      # a source without the method counts as not seekable, and is not asked
+
     def hdr_read_evlrs():
         f = find_func(hcls, "read_evlrs")
         _require([a.arg for a in f.args.args] == ["self", "stream"], "read_evlrs(self, stream)")
@@ -187,15 +189,20 @@ def gen(repo):
         _require(len(body) == 1 and isinstance(body[0], ast.If) and _norm(body[0].test) == "self.version.minor >= 4", "outer version test")
         top = body[0]
         _require(_norm(top.orelse[0]) == "self.evlrs = None" and len(top.orelse) == 1, "below 1.4: evlrs = None")
-        i1 = top.body[0]
-        _require(len(top.body) == 1 and isinstance(i1, ast.If) and _norm(i1.test) == "self.number_of_evlrs > 0 and stream.seekable()", "seekable branch test")
+        # the capability is asked once, whatever the number of EVLRs, and only through getattr with a default
+        _require(len(top.body) == 2 and _norm(top.body[0]) == "seekable = " + ASK.format("stream"), "seekable = getattr(stream, 'seekable', lambda: False)()")
+        i1 = top.body[1]
+        _require(isinstance(i1, ast.If) and _norm(i1.test) == "self.number_of_evlrs > 0 and seekable", "seekable branch test")
         want = ["saved_pos = stream.tell()", "stream.seek(self.start_of_first_evlr, io.SEEK_SET)",
                 "self.evlrs = VLRList.read_from(stream, self.number_of_evlrs, extended=True)", "stream.seek(saved_pos)"]
         _require([_norm(s) for s in i1.body] == want, f"seekable branch body {[_norm(s) for s in i1.body]}")
         i2 = i1.orelse[0]
-        _require(len(i1.orelse) == 1 and isinstance(i2, ast.If) and _norm(i2.test) == "self.number_of_evlrs > 0 and (not stream.seekable())"
+        _require(len(i1.orelse) == 1 and isinstance(i2, ast.If) and _norm(i2.test) == "self.number_of_evlrs > 0 and (not seekable)"
                  and [_norm(s) for s in i2.body] == ["self.evlrs = None"], "non seekable branch")
         _require([_norm(s) for s in i2.orelse] == ["self.evlrs = VLRList()"], "no EVLR branch")
+        # nothing else of the stream is used: tell, seek (twice), VLRList.read_from, and the getattr
+        uses = sorted(_norm(n) for n in ast.walk(f) if isinstance(n, ast.Attribute) and isinstance(n.value, ast.Name) and n.value.id == "stream")
+        _require(uses == ["stream.seek", "stream.seek", "stream.tell"], f"read_evlrs uses {uses} of the stream")
         return "Definition gen_hdr_read_evlrs_shape : bool := true.\n"
     o.add("hdr_read_evlrs", hdr_read_evlrs)
 
@@ -303,6 +310,73 @@ def gen(repo):
                 '  [("path", "open rb"); ("bytes", "BytesIO"); ("other", "as is")]%string.\n')
     o.add("open_las", open_las)
 
+    def _default_of(fn, name):
+        a = fn.args
+        pos = a.posonlyargs + a.args
+        defs = dict(zip([x.arg for x in pos[len(pos) - len(a.defaults):]], a.defaults))
+        for x, d in zip(a.kwonlyargs, a.kw_defaults):
+            if d is not None:
+                defs[x.arg] = d
+        _require(name in defs, f"{fn.name}: parameter {name} has no default")
+        d = defs[name]
+        _require(isinstance(d, ast.Constant) and isinstance(d.value, bool), f"{fn.name}: the default of {name} is not a boolean constant: {_norm(d)}")
+        return d.value
+
+    def _never_rebound(fn, name):
+        for n in ast.walk(fn):
+            _require(not (isinstance(n, ast.Name) and n.id == name and isinstance(n.ctx, (ast.Store, ast.Del))), f"{fn.name} rebinds {name}")
+            _require(not (isinstance(n, ast.arg) and n.arg == name and n is not next(x for x in fn.args.args + fn.args.kwonlyargs if x.arg == name)),
+                     f"{fn.name}: {name} is shadowed")
+            _require(not isinstance(n, (ast.Global, ast.Nonlocal)), f"{fn.name}: global/nonlocal")
+
+    def open_defaults():
+        """what read_evlrs is when the caller does not say: the same constant for every kind of source, by laspy.open,
+        by laspy.read and by LasReader(...)"""
+        lmod = parse(repo, "laspy/lib.py")
+        f = find_func(lmod, "open_las")
+        d_open = _default_of(f, "read_evlrs")
+        _never_rebound(f, "read_evlrs")
+        rd = find_func(find_class(parse(repo, "laspy/lasreader.py"), "LasReader"), "__init__")
+        d_reader = _default_of(rd, "read_evlrs")
+        _never_rebound(rd, "read_evlrs")
+        _require(d_open == d_reader, f"laspy.open defaults to read_evlrs={d_open}, LasReader to {d_reader}")
+        r = find_func(lmod, "read_las")
+        calls = _calls(r, "open_las")
+        _require(len(calls) == 1 and [_norm(a) for a in calls[0].args] == ["source"]
+                 and sorted((k.arg, _norm(k.value)) for k in calls[0].keywords)
+                 == [("closefd", "closefd"), ("decompression_selection", "decompression_selection"), ("laz_backend", "laz_backend")],
+                 "read_las opens the source with open_las(source, closefd=, laz_backend=, decompression_selection=) and nothing else")
+        body = _strip_doc(r.body)
+        _require(len(body) == 1 and isinstance(body[0], ast.With) and len(body[0].items) == 1 and body[0].items[0].context_expr is calls[0]
+                 and _norm(body[0].items[0].optional_vars) == "reader" and [_norm(x) for x in body[0].body] == ["return reader.read()"],
+                 "read_las is `with open_las(..) as reader: return reader.read()`")
+        return f"Definition open_read_evlrs_default : bool := {'true' if d_open else 'false'}.\n"
+    o.add("open_defaults", open_defaults)
+
+    def read_points():
+        rmod = parse(repo, "laspy/lasreader.py")
+        f = find_func(find_class(rmod, "LasReader"), "read_points")
+        # the source is reached through self.point_source.read_n_points(n) only: one call, nothing else of the source
+        own = [_norm(n) for n in ast.walk(f) if isinstance(n, ast.Attribute) and _norm(n.value) == "self"
+               and n.attr in ("point_source", "_point_source", "_source", "read_evlrs", "seek", "read")]
+        _require(own == ["self.point_source"], f"read_points uses {own}")
+        through = [_norm(n) for n in ast.walk(f) if isinstance(n, ast.Attribute) and _norm(n.value) == "self.point_source"]
+        _require(through == ["self.point_source.read_n_points"] and len(_calls(f, "self.point_source.read_n_points")) == 1,
+                 f"read_points uses {through} of the point source")
+        src = _norm(f)
+        for needed in ("points_left = self.header.point_count - self.points_read", "if points_left <= 0:", "n = min(n, points_left)",
+                       "record.PackedPointRecord.from_buffer(self.point_source.read_n_points(n), self.header.point_format)", "self.points_read += n"):
+            _require(needed in src, f"read_points lacks `{needed}`")
+        it = find_func(find_class(rmod, "PointChunkIterator"), "__next__")
+        _require([_norm(x) for x in _strip_doc(it.body)] == ["points = self.reader.read_points(self.points_per_iteration)",
+                                                             "if not points: raise StopIteration", "return points"]
+                 or [_norm(x).replace("\n", " ") for x in _strip_doc(it.body)][0] == "points = self.reader.read_points(self.points_per_iteration)"
+                 and len(_strip_doc(it.body)) == 3 and isinstance(it.body[-2], ast.If) and _norm(it.body[-2].test) == "not points"
+                 and [_norm(x) for x in it.body[-2].body] == ["raise StopIteration"] and not it.body[-2].orelse and _norm(it.body[-1]) == "return points",
+                 "PointChunkIterator.__next__: read_points(k), stop at the first empty record")
+        return "Definition gen_read_points_shape : bool := true.\n"
+    o.add("read_points", read_points)
+
     def reader_read():
         rmod = parse(repo, "laspy/lasreader.py")
         cls = find_class(rmod, "LasReader")
@@ -314,7 +388,7 @@ def gen(repo):
         i = body[3]
         _require(isinstance(i, ast.If) and _norm(i.test) == "shall_read_evlr", "if shall_read_evlr")
         inner = [s for s in i.body if isinstance(s, ast.If)]
-        _require(len(inner) == 1 and _norm(inner[0].test) == "self.point_source.source.seekable()" and
+        _require(len(inner) == 1 and _norm(inner[0].test) == ASK.format("self.point_source.source") and
                  [_norm(s) for s in inner[0].body] == ["self.read_evlrs()"], "seekable: self.read_evlrs()")
         comp = [s for s in inner[0].orelse if isinstance(s, ast.If)]
         _require(len(comp) == 1 and _norm(comp[0].test) == "self.header.are_points_compressed", "compressed switch in the sequential branch")
@@ -366,6 +440,29 @@ def gen(repo):
         _require("data = np.frombuffer(buffer, dtype=points_dtype, offset=offset, count=count)" in _norm(fb), "from_buffer is np.frombuffer(offset, count)")
         return "Definition gen_mmap_shape : bool := true.\n"
     o.add("lasmmap", lasmmap)
+
+    def record_assign():
+        """record[name] = values writes INTO the array the record has (for a memory map: the mapped file); the array is
+        replaced (by a longer copy) only when the value has more elements than the record"""
+        pmod = parse(repo, "laspy/point/record.py")
+        cls = find_class(pmod, "PackedPointRecord")
+        g = find_func(cls, "_append_zeros_if_too_small")
+        _require([_norm(x) for x in _strip_doc(g.body)] == ["if len(value) > len(self.array): self.resize(len(value))"]
+                 or (len(_strip_doc(g.body)) == 1 and isinstance(_strip_doc(g.body)[0], ast.If)
+                     and _norm(_strip_doc(g.body)[0].test) == "len(value) > len(self.array)"
+                     and [_norm(x) for x in _strip_doc(g.body)[0].body] == ["self.resize(len(value))"] and not _strip_doc(g.body)[0].orelse),
+                 "_append_zeros_if_too_small resizes only when the value is longer than the record")
+        f = find_func(cls, "__setitem__")
+        tr = [x for x in f.body if isinstance(x, ast.Try)]
+        _require(len(tr) == 1 and len(tr[0].body) == 1 and isinstance(tr[0].body[0], ast.If) and _norm(tr[0].body[0].test) == "isinstance(key, str)"
+                 and [_norm(x) for x in tr[0].body[0].body] == ["self[key][:] = value"] and [_norm(x) for x in tr[0].body[0].orelse] == ["self.array[key] = value"],
+                 "record[name] = value is `self[name][:] = value` (in place)")
+        before = [_norm(x) for x in f.body[f.body.index(tr[0]) - 2:f.body.index(tr[0])]]
+        _require(before == ["previous_array = self.array", "self._append_zeros_if_too_small(value)"], f"before the assignment: {before}")
+        stores = [_norm(n) for n in ast.walk(f) if isinstance(n, ast.Attribute) and _norm(n) == "self.array" and isinstance(n.ctx, ast.Store)]
+        _require(len(stores) == 1, "__setitem__ rebinds self.array otherwise than to restore it after a refused assignment")
+        return "Definition gen_record_assign_shape : bool := true.\n"
+    o.add("record_assign", record_assign)
     return o
 
 
